@@ -148,7 +148,7 @@ def run(ctx: Ctx) -> None:
     items = idx["result"]
     alli = [it["i"] for it in items]
     rng.shuffle(alli)
-    plans = [({}, 320 if ctx.quick else 10**9), ({"opset": 21}, 60 if ctx.quick else 800), ({"opset": 26}, 60 if ctx.quick else 800)]
+    plans = [({}, 320 if ctx.quick else 10**9), ({"opset": 21}, 60 if ctx.quick else 10**9), ({"opset": 26}, 60 if ctx.quick else 10**9)]
     tasks = []
     for ov, cap in plans:
         sel = sorted(alli[:cap])
